@@ -276,7 +276,8 @@ Section Monitor.
     let e_vals := negb (if n mod epoch =? len (o_vals pre) / 2
                         then list_eqb bytes_eqb (o_vals post) (parse_validators epoch_extra)
                         else list_eqb bytes_eqb (o_vals post) (o_vals pre)) in
-    let e_pending := negb (opt_eqb (list_eqb bytes_eqb) (o_pending post) (Some (parse_validators epoch_extra))) in
+    let e_pending := negb (opt_eqb (list_eqb bytes_eqb) (o_pending post)
+                                   (match parse_validators epoch_extra with [] => None | l => Some l end)) in
     let newkey := cons_key (hheight h) in
     let e_cons := negb (existsb (conse_eqb (newkey, (h_time h, hheight h, h_root h))) (o_cons post)
                         && removed_ok (s_bt o) pre post newkey) in
